@@ -146,9 +146,9 @@ Proof. intros Hf. induction l as [|x r IH]; intros a a' H; cbn [fold_left]; [exa
 Section CoreReaders.
   Variables s s' : state.
   Hypothesis H : core_eq s s'.
-  Let Eg : g s' = g s := proj1 H.
-  Let Es : seg s' = seg s := proj1 (proj2 H).
-  Let Ef : ft s' = ft s := proj2 (proj2 H).
+  Let Eg : g s' = g s. Proof. apply H. Qed.
+  Let Es : seg s' = seg s. Proof. apply H. Qed.
+  Let Ef : ft s' = ft s. Proof. apply H. Qed.
 
   Lemma core_has_node n : has_node s' n = has_node s n.
   Proof. unfold has_node. now rewrite Eg. Qed.
@@ -182,12 +182,12 @@ Section CoreReaders.
   Lemma sna_core n k v : core_eq (set_node_attr s n k v) (set_node_attr s' n k v).
   Proof.
     unfold set_node_attr. rewrite Eg. destruct (lookup n (nodes (g s))); [|exact H].
-    unfold core_eq. cbn [g seg ft upd_g]. rewrite Eg. auto.
+    unfold core_eq. cbn [g seg ft upd_g]. auto.
   Qed.
   Lemma sea_core u v k x : core_eq (set_edge_attr s u v k x) (set_edge_attr s' u v k x).
   Proof.
     unfold set_edge_attr. rewrite core_has_edge. destruct (has_edge s u v); [|exact H].
-    unfold core_eq. cbn [g seg ft upd_g]. rewrite core_edge_attrs, core_adj, Eg. auto.
+    unfold core_eq. cbn [g seg ft upd_g]. rewrite ?core_edge_attrs, ?core_adj, ?Eg. auto.
   Qed.
   Lemma set_pixels_core px v : res_core (set_pixels s px v) (set_pixels s' px v).
   Proof.
@@ -217,7 +217,7 @@ Proof.
   intros H. unfold do_add_edge. rewrite !(core_has_node _ _ H).
   destruct (negb (has_node s u)); [cbn; auto|]. destruct (negb (has_node s v)); [cbn; auto|].
   cbn. split; [reflexivity|]. apply iou_update_edges_core. pose proof H as (Eg & Es & Ef).
-  unfold core_eq. cbn [g seg ft upd_g]. rewrite (core_edge_attrs _ _ H), (core_adj _ _ H), Eg. auto.
+  unfold core_eq. cbn [g seg ft upd_g]. rewrite ?(core_edge_attrs _ _ H), ?(core_adj _ _ H), ?Eg. auto.
 Qed.
 
 Lemma do_del_edge_core s s' u v : core_eq s s' -> res_core (do_del_edge s u v) (do_del_edge s' u v).
@@ -225,7 +225,7 @@ Proof.
   intros H. unfold do_del_edge. rewrite (core_has_edge _ _ H).
   destruct (negb (has_edge s u v)); [cbn; auto|]. pose proof H as (Eg & Es & Ef).
   cbn. rewrite Ef, (core_edge_attrs _ _ H). split; [reflexivity|].
-  unfold core_eq. cbn [g seg ft upd_g]. rewrite (core_adj _ _ H), Eg. auto.
+  unfold core_eq. cbn [g seg ft upd_g]. rewrite (core_adj _ _ H), ?Eg. auto.
 Qed.
 
 Lemma do_upd_attrs_core s s' n new : core_eq s s' -> res_core (do_upd_attrs s n new) (do_upd_attrs s' n new).
@@ -249,7 +249,7 @@ Lemma add_node_graph_core s s' n a : core_eq s s' -> core_eq (add_node_graph s n
 Proof.
   intros H. unfold add_node_graph. cbv zeta. apply rp_update_core.
   apply (set_attrs_core _ _ n a). pose proof H as (Eg & Es & Ef). rewrite Eg.
-  destruct (haskey n (nodes (g s))); [exact H|]. unfold core_eq. cbn [g seg ft upd_g]. rewrite Eg. auto.
+  destruct (haskey n (nodes (g s))); [exact H|]. unfold core_eq. cbn [g seg ft upd_g]. auto.
 Qed.
 
 Lemma add_node_tail_core s s' n a px : core_eq s s' -> res_core (add_node_tail s n a px) (add_node_tail s' n a px).
@@ -331,7 +331,7 @@ Proof.
     destruct Hf as (H1 & <- & <- & <- & <-); [cbn; auto|].
     specialize (IH s1 s1' nx1 f1 tn1 ln1 H1).
     destruct (walk f oldT newT newL s1 nx1 f1 tn1 ln1) as [[[s2 tn2] ln2]|], (walk f oldT newT newL s1' nx1 f1 tn1 ln1) as [[[s2' tn2'] ln2']|]; auto.
-    destruct IH as (A & B & C & D & E). repeat split; congruence.
+    destruct IH as (A & B & C & D & E). split; [exact A|]. split; [congruence|]. split; [congruence|]. split; assumption.
 Qed.
 
 Lemma do_upd_track_core s s' start newT newL : core_eq s s' ->
@@ -358,4 +358,247 @@ Proof.
   - now apply do_upd_attrs_core.
   - now apply do_upd_seg_core.
   - now apply do_upd_track_core.
+Qed.
+
+Lemma inv_basic_at st1 s b b' st2 : core_eq st1 s -> inv_basic st1 b = Ok b' st2 ->
+  exists s2, inv_basic s b = Ok b' s2 /\ core_eq st2 s2.
+Proof. intros H E. exact (res_core_ok _ _ _ _ (inv_basic_core _ _ b H) E). Qed.
+
+(* ================================================================== *)
+(* 3. dictionary facts: writing a key twice, deleting what was added     *)
+(* ================================================================== *)
+Section DictMore.
+Context {V : Type}.
+Implicit Types (d : dict V) (k : Z).
+
+Lemma set_set_eq k (v v' : V) d : set k v (set k v' d) = set k v d.
+Proof.
+  induction d as [|[k1 v1] r IH]; cbn; [now rewrite Z.eqb_refl|].
+  destruct (Z.eqb_spec k k1) as [->|Hn]; cbn; [now rewrite Z.eqb_refl|].
+  destruct (Z.eqb_spec k k1); [contradiction|]. now rewrite IH.
+Qed.
+Lemma set_same k (v : V) d : lookup k d = Some v -> set k v d = d.
+Proof.
+  induction d as [|[k1 v1] r IH]; cbn; [discriminate|].
+  destruct (Z.eqb_spec k k1) as [->|Hn]; [intros [= ->]; reflexivity|]. intros E. now rewrite IH.
+Qed.
+Lemma del_notin k d : ~ In k (keys d) -> del k d = d.
+Proof.
+  induction d as [|[k1 v1] r IH]; cbn; [reflexivity|]. intros Hn.
+  destruct (Z.eqb_spec k k1) as [->|Hne]; [exfalso; apply Hn; now left|]. rewrite IH; [reflexivity|]. intros Hi. apply Hn. now right.
+Qed.
+Lemma del_set_eq k (v : V) d : del k (set k v d) = del k d.
+Proof.
+  induction d as [|[k1 v1] r IH]; cbn; [now rewrite Z.eqb_refl|].
+  destruct (Z.eqb_spec k k1) as [->|Hn]; cbn; [now rewrite Z.eqb_refl|].
+  destruct (Z.eqb_spec k k1); [contradiction|]. now rewrite IH.
+Qed.
+Lemma del_set_new k (v : V) d : ~ In k (keys d) -> del k (set k v d) = d.
+Proof. intros H. rewrite del_set_eq. now apply del_notin. Qed.
+Lemma del_app k d e : del k (d ++ e) = del k d ++ del k e.
+Proof. induction d as [|[k1 v1] r IH]; cbn; [reflexivity|]. destruct (k =? k1); [exact IH|]. cbn. now rewrite IH. Qed.
+Lemma set_notin k (v : V) d : ~ In k (keys d) -> set k v d = d ++ [(k, v)].
+Proof.
+  induction d as [|[k1 v1] r IH]; cbn; [reflexivity|]. intros Hn.
+  destruct (Z.eqb_spec k k1) as [->|Hne]; [exfalso; apply Hn; now left|]. rewrite IH; [reflexivity|]. intros Hi. apply Hn. now right.
+Qed.
+Lemma haskey_set k k' (x : V) d : haskey k (set k' x d) = (k =? k') || haskey k d.
+Proof. unfold haskey. destruct (Z.eqb_spec k k') as [->|Hne]; [now rewrite lookup_set_eq|]. now rewrite lookup_set_neq. Qed.
+Lemma haskey_del k k' d : haskey k (del k' d) = negb (k =? k') && haskey k d.
+Proof. unfold haskey. destruct (Z.eqb_spec k k') as [->|Hne]; [now rewrite lookup_del_eq|]. now rewrite lookup_del_neq. Qed.
+Lemma getd_del_neq k k' d dflt : k <> k' -> getd k (del k' d) dflt = getd k d dflt.
+Proof. intros H. unfold getd. now rewrite lookup_del_neq. Qed.
+Lemma getd_del_eq k d dflt : getd k (del k d) dflt = dflt.
+Proof. unfold getd. now rewrite lookup_del_eq. Qed.
+
+(* d.update(e): a key all of whose bindings in e carry the same value ends up with that value *)
+Lemma update_lookup_in k (v : V) (e : dict V) : forall d, (forall v', In (k, v') e -> v' = v) ->
+  (In k (keys e) \/ lookup k d = Some v) -> lookup k (update d e) = Some v.
+Proof.
+  unfold update. induction e as [|[k1 v1] r IH]; intros d Hall Hc; cbn [fold_left fst snd].
+  - destruct Hc as [[]|Hc]. exact Hc.
+  - apply IH; [intros v' Hv'; apply Hall; now right|].
+    destruct (Z.eq_dec k k1) as [<-|Hne].
+    + right. rewrite (Hall v1 (or_introl eq_refl)). apply lookup_set_eq.
+    + destruct Hc as [[E|Hc]|Hc]; [cbn in E; congruence|now left|right]. now rewrite lookup_set_neq.
+Qed.
+Lemma update_lookup_notin k (e : dict V) : forall d, ~ In k (keys e) -> lookup k (update d e) = lookup k d.
+Proof.
+  unfold update. induction e as [|[k1 v1] r IH]; intros d Hn; cbn [fold_left fst snd]; [reflexivity|].
+  rewrite IH by (intros Hi; apply Hn; now right). apply lookup_set_neq. intros ->. apply Hn. now left.
+Qed.
+End DictMore.
+
+Lemma graph_eta (x : graph) : {| nodes := nodes x; succs := succs x |} = x.
+Proof. now destruct x. Qed.
+
+(* what DeleteNode / DeleteEdge save: the registered attributes that are not None *)
+Lemma saved_attrs_in reg d k v : In (k, v) (saved_attrs reg d) -> In k reg /\ lookup k d = Some v /\ v <> VNone.
+Proof.
+  unfold saved_attrs.
+  assert (G : forall reg acc, In (k, v) (fold_left (fun acc k => match lookup k d with Some VNone => acc | Some v => acc ++ [(k, v)] | None => acc end) reg acc) ->
+     In (k, v) acc \/ (In k reg /\ lookup k d = Some v /\ v <> VNone)).
+  { intros reg0. induction reg0 as [|k1 r IH]; intros acc Hin; cbn [fold_left] in Hin; [now left|].
+    apply IH in Hin. destruct Hin as [Hin|(A & B & C)]; [|right; split; [now right|auto]].
+    destruct (lookup k1 d) as [x|] eqn:E; [|now left].
+    destruct x; try (apply in_app_iff in Hin; destruct Hin as [Hin|[Hin|[]]]; [now left|injection Hin as <- <-; right; split; [now left|split; [exact E|discriminate]]]).
+    now left. }
+  intros Hin. apply G in Hin. destruct Hin as [[]|Hin]. exact Hin.
+Qed.
+Lemma saved_attrs_keys reg d k : In k (keys (saved_attrs reg d)) <-> In k reg /\ exists v, lookup k d = Some v /\ v <> VNone.
+Proof.
+  split.
+  - intros Hk. unfold keys in Hk. apply in_map_iff in Hk. destruct Hk as ([k' v] & <- & Hin). apply saved_attrs_in in Hin.
+    destruct Hin as (A & B & C). split; [exact A|now exists v].
+  - intros (Hk & v & E & Hv). apply lookup_Some_keys with (v := v). apply saved_attrs_lookup; assumption.
+Qed.
+
+(* the observation of a saved-and-restored attribute dictionary *)
+Lemma obs_saved reg d k (x : option value) :
+  In k reg ->
+  (forall v, lookup k d = Some v -> v <> VNone -> x = Some v) ->
+  ((lookup k d = None \/ lookup k d = Some VNone) -> x = None) ->
+  match x with Some VNone => None | y => y end = match lookup k d with Some VNone => None | y => y end.
+Proof.
+  intros Hk H1 H2. destruct (lookup k d) as [v|] eqn:E.
+  - destruct v; try (rewrite (H1 _ eq_refl) by discriminate; reflexivity). rewrite H2 by (now right). reflexivity.
+  - rewrite H2 by (now left). reflexivity.
+Qed.
+
+(* ================================================================== *)
+(* 4. AddEdge / DeleteEdge                                               *)
+(* ================================================================== *)
+Lemma adj_row st st' u row : succs (g st') = set u row (succs (g st)) -> forall a, adj st' a = if a =? u then row else adj st a.
+Proof. intros Hs a. unfold adj. rewrite Hs. destruct (Z.eqb_spec a u) as [->|Hne]; [apply getd_set_eq|now apply getd_set_neq]. Qed.
+
+Lemma succs_put st st' u v x : succs (g st') = set u (set v x (adj st u)) (succs (g st)) ->
+  (forall a b, has_edge st' a b = ((a =? u) && (b =? v)) || has_edge st a b) /\
+  (forall a b, edge_attrs st' a b = if (a =? u) && (b =? v) then x else edge_attrs st a b).
+Proof.
+  intros Hs. split; intros a b; unfold has_edge, edge_attrs; rewrite (adj_row st st' u _ Hs a).
+  - destruct (Z.eqb_spec a u) as [->|Hne]; cbn [andb orb]; [|reflexivity]. apply haskey_set.
+  - destruct (Z.eqb_spec a u) as [->|Hne]; cbn [andb]; [|reflexivity].
+    destruct (Z.eqb_spec b v) as [->|Hne]; [apply getd_set_eq|now apply getd_set_neq].
+Qed.
+Lemma succs_drop st st' u v : succs (g st') = set u (del v (adj st u)) (succs (g st)) ->
+  (forall a b, has_edge st' a b = negb ((a =? u) && (b =? v)) && has_edge st a b) /\
+  (forall a b, edge_attrs st' a b = if (a =? u) && (b =? v) then [] else edge_attrs st a b).
+Proof.
+  intros Hs. split; intros a b; unfold has_edge, edge_attrs; rewrite (adj_row st st' u _ Hs a).
+  - destruct (Z.eqb_spec a u) as [->|Hne]; cbn [andb negb]; [|reflexivity]. apply haskey_del.
+  - destruct (Z.eqb_spec a u) as [->|Hne]; cbn [andb]; [|reflexivity].
+    destruct (Z.eqb_spec b v) as [->|Hne]; [apply getd_del_eq|now apply getd_del_neq].
+Qed.
+
+(* AddEdge, exactly: the row of u gets (v, X), where X is the updated attribute dictionary
+   with the IoU the annotator computes written on top when that feature is active *)
+Lemma add_edge_char st u v a b st1 : do_add_edge st u v a = Ok b st1 ->
+  b = BAddEdge u v a /\ is_node st u /\ is_node st v /\
+  nodes (g st1) = nodes (g st) /\ seg st1 = seg st /\ ft st1 = ft st /\ bk st1 = bk st /\
+  exists X, succs (g st1) = set u (set v X (adj st u)) (succs (g st)) /\
+    match seg st with
+    | Some sg => if iou_act (ft st) then X = set KIou (iou_of st sg u v) (update (edge_attrs st u v) a)
+                 else X = update (edge_attrs st u v) a
+    | None => X = update (edge_attrs st u v) a
+    end.
+Proof.
+  unfold do_add_edge. destruct (has_node st u) eqn:Eu; [|discriminate]. destruct (has_node st v) eqn:Ev; [|discriminate].
+  cbn [negb]. intros H. injection H as <- <-.
+  split; [reflexivity|]. split; [now apply has_node_is_node|]. split; [now apply has_node_is_node|].
+  set (ea := update (edge_attrs st u v) a).
+  set (s1 := upd_g st {| nodes := nodes (g st); succs := set u (set v ea (adj st u)) (succs (g st)) |}).
+  pose proof (iou_update_edges_upd s1 [(u, v)]) as U.
+  split; [now rewrite (eu_nodes _ _ U)|]. split; [now rewrite (eu_seg _ _ U)|]. split; [now rewrite (eu_ft _ _ U)|].
+  split; [now rewrite (eu_bk _ _ U)|]. clear U.
+  unfold iou_update_edges. change (seg s1) with (seg st). change (ft s1) with (ft st).
+  destruct (seg st) as [sg|].
+  2:{ exists ea. split; reflexivity. }
+  destruct (iou_act (ft st)).
+  2:{ exists ea. split; reflexivity. }
+  cbn [fold_left fst snd].
+  assert (He : has_edge s1 u v = true).
+  { unfold has_edge, adj, s1. cbn [g succs upd_g]. rewrite getd_set_eq. apply haskey_set_eq. }
+  unfold set_edge_attr. rewrite He. cbn [g nodes succs seg ft bk upd_g].
+  exists (set KIou (iou_of st sg u v) ea). split.
+  - assert (Ea : adj s1 u = set v ea (adj st u)) by (unfold adj, s1; cbn [g succs upd_g]; apply getd_set_eq).
+    assert (Ee : edge_attrs s1 u v = ea) by (unfold edge_attrs; rewrite Ea; apply getd_set_eq).
+    rewrite Ee, Ea. unfold s1 at 2. cbn [g succs upd_g]. rewrite !set_set_eq.
+    replace (iou_of s1 sg u v) with (iou_of st sg u v); [reflexivity|]. reflexivity.
+  - reflexivity.
+Qed.
+
+Lemma del_edge_char st u v b st1 : do_del_edge st u v = Ok b st1 ->
+  b = BDelEdge u v (saved_attrs (reg_edge (ft st)) (edge_attrs st u v)) /\ has_edge st u v = true /\
+  nodes (g st1) = nodes (g st) /\ seg st1 = seg st /\ ft st1 = ft st /\ bk st1 = bk st /\
+  succs (g st1) = set u (del v (adj st u)) (succs (g st)).
+Proof.
+  unfold do_del_edge. destruct (has_edge st u v) eqn:E; [|discriminate]. cbn [negb]. intros H. injection H as <- <-.
+  cbn. repeat split; reflexivity.
+Qed.
+
+(* AddEdge of an edge that was not there, then its inverse: the graph is literally restored *)
+Theorem add_edge_inverse st u v a b st1 :
+  W_dict st -> has_edge st u v = false -> do_add_edge st u v a = Ok b st1 ->
+  exists b' st2, inv_basic st1 b = Ok b' st2 /\ core_eq st st2 /\ bk st2 = bk st.
+Proof.
+  intros WD Hne H. destruct (add_edge_char _ _ _ _ _ _ H) as (-> & Nu & Nv & En & Es & Ef & Eb & X & Esu & _).
+  destruct (succs_put st st1 u v X Esu) as [P1 P2].
+  cbn [inv_basic]. unfold do_del_edge. rewrite P1, !Z.eqb_refl. cbn [andb orb negb].
+  eexists _, _. split; [reflexivity|]. split; [|cbn; exact Eb].
+  unfold core_eq. cbn [g seg ft upd_g]. split; [|auto].
+  rewrite (adj_row st st1 u _ Esu u), Z.eqb_refl, Esu, set_set_eq, En.
+  rewrite del_set_new.
+  - rewrite set_same; [apply graph_eta|].
+    apply (wd_succ_keys st WD) in Nu. unfold adj, getd. unfold haskey in Nu. destruct (lookup u (succs (g st))); [reflexivity|discriminate].
+  - intros Hi. apply haskey_keys in Hi. unfold has_edge in Hne. congruence.
+Qed.
+
+Definition iou_fresh_at (st : state) (u v : Z) : Prop :=
+  forall sg, seg st = Some sg -> iou_act (ft st) = true -> lookup KIou (edge_attrs st u v) = Some (iou_of st sg u v).
+
+Lemma W_fresh_iou_at st u v : W_fresh st -> edge st u v -> iou_fresh_at st u v.
+Proof. intros W He sg Hs Ha. unfold W_fresh in W. rewrite Hs in W. now apply (proj2 W). Qed.
+
+(* DeleteEdge, then its inverse: same observation (the edge moves to the end of u's adjacency,
+   unregistered attributes of the edge are gone) *)
+Theorem del_edge_inverse st u v b st1 :
+  W_dict st -> iou_fresh_at st u v -> do_del_edge st u v = Ok b st1 ->
+  exists b' st2, inv_basic st1 b = Ok b' st2 /\ obs_eq st st2 /\ nodes (g st2) = nodes (g st) /\ bk st2 = bk st.
+Proof.
+  intros WD Hio H. destruct (del_edge_char _ _ _ _ _ H) as (-> & He & En & Es & Ef & Eb & Esu).
+  destruct (succs_drop st st1 u v Esu) as [D1 D2].
+  destruct (wd_edge_nodes st WD u v He) as [Nu Nv].
+  cbn [inv_basic].
+  destruct (do_add_edge st1 u v (saved_attrs (reg_edge (ft st)) (edge_attrs st u v))) as [b' st2|e st2] eqn:H2.
+  2:{ exfalso. unfold do_add_edge in H2. unfold has_node in H2. rewrite En in H2.
+      apply has_node_is_node in Nu. apply has_node_is_node in Nv. unfold has_node in Nu, Nv. rewrite Nu, Nv in H2. discriminate. }
+  exists b', st2. split; [reflexivity|].
+  destruct (add_edge_char _ _ _ _ _ _ H2) as (_ & _ & _ & En2 & Es2 & Ef2 & Eb2 & X & Esu2 & HX).
+  destruct (succs_put st1 st2 u v X Esu2) as [P1 P2].
+  split; [|split; [congruence|congruence]].
+  constructor.
+  - intros n. unfold is_node, node_ids. now rewrite En2, En.
+  - intros a c. rewrite P1, D1. destruct ((a =? u) && (c =? v)) eqn:E; cbn [negb andb orb]; [|reflexivity].
+    apply andb_true_iff in E. destruct E as [E1 E2]. apply Z.eqb_eq in E1, E2. now subst.
+  - intros n k _. unfold attr_obs, attr, node_attrs. now rewrite En2, En.
+  - intros a c k Hk. unfold eattr_obs. rewrite P2, D2. destruct ((a =? u) && (c =? v)) eqn:E; [|reflexivity].
+    apply andb_true_iff in E. destruct E as [E1 E2]. apply Z.eqb_eq in E1, E2. subst a c.
+    set (d := edge_attrs st u v) in *. set (sv := saved_attrs (reg_edge (ft st)) d) in *.
+    assert (Hup : forall w, lookup k d = Some w -> w <> VNone -> lookup k (update [] sv) = Some w).
+    { intros w E Hw. apply update_lookup_in.
+      - intros w' Hin. apply saved_attrs_in in Hin. destruct Hin as (_ & E' & _). congruence.
+      - left. apply saved_attrs_keys. split; [exact Hk|now exists w]. }
+    assert (Hno : (lookup k d = None \/ lookup k d = Some VNone) -> lookup k (update [] sv) = None).
+    { intros Hc. rewrite update_lookup_notin; [reflexivity|]. intros Hi. apply saved_attrs_keys in Hi.
+      destruct Hi as (_ & w & E & Hw). destruct Hc as [Hc|Hc]; congruence. }
+    assert (Ee1 : edge_attrs st1 u v = []) by (rewrite D2, !Z.eqb_refl; reflexivity).
+    rewrite Ee1, Es, Ef in HX.
+    destruct (seg st) as [sg|] eqn:Esg; [destruct (iou_act (ft st)) eqn:Eact|]; subst X; try (apply (obs_saved _ _ _ _ Hk Hup Hno)).
+    destruct (Z.eq_dec k KIou) as [->|Hne].
+    + rewrite lookup_set_eq. rewrite (Hio sg eq_refl Eact).
+      replace (iou_of st1 sg u v) with (iou_of st sg u v); [reflexivity|].
+      unfold iou_of, time_of, zattr, attr, node_attrs. now rewrite En.
+    + rewrite lookup_set_neq by exact Hne. apply (obs_saved _ _ _ _ Hk Hup Hno).
+  - congruence.
+  - congruence.
 Qed.
